@@ -109,6 +109,50 @@ def logistic(vc):
     _common(vc, L, theta, n, m, J, mk, F)
 
 
+def _data_fixed(vc, clsname, scale_name, mk_logf):
+    """the likelihood is that of the data GIVEN to the constructor: the caller changing its own y / uncertainty arrays in place
+    afterwards (the next data set read into the same buffers) leaves value and gradient those of the original data"""
+    n, m, y, sc, F, J, theta, L = _setup(vc, clsname, scale_name)
+    _CUR.pop(id(vc), None)
+    vc.tol(rtol=1e-9, atol=1e-9)
+    y0, sc0 = y.copy(), sc.copy()
+    dy = vc.real("dy", pos=True)
+    k = vc.real("k", pos=True)
+    vc.setitem(y, 0, y[0] + dy)
+    vc.setitem(sc, 0, sc[0] * (1 + k))
+    logf, dlogf = mk_logf(y0, sc0, F)
+    val = vc.call(L, "__call__", theta)
+    vc.ensures("value_is_that_of_the_data_given_at_construction", vc.eq(val, vc.sum(n, logf)))
+    grad = vc.call(L, "gradient", theta)
+    vc.ensures_forall("gradient_is_that_of_the_data_given_at_construction", m, lambda j: vc.eq(
+        grad[j], vc.sum(n, lambda i: dlogf(i) * J[i, j]), scale=_gs(vc, n, dlogf, J, j)))
+
+
+@contract("C05", "gaussian_data_fixed_at_construction")
+def gaussian_data_fixed(vc):
+    def mk(y, s, F):
+        return (lambda i: -0.5 * ((y[i] - F[i]) / s[i]) ** 2 - vc.log(s[i]) - 0.5 * vc.log(2 * vc.pi),
+                lambda i: (y[i] - F[i]) / (s[i] * s[i]))
+    _data_fixed(vc, "GaussianLikelihood", "sigma", mk)
+
+
+@contract("C05", "cauchy_data_fixed_at_construction")
+def cauchy_data_fixed(vc):
+    def mk(y, g, F):
+        z = lambda i: (y[i] - F[i]) / g[i]
+        return (lambda i: -vc.log(1 + z(i) ** 2) - vc.log(vc.pi * g[i]), lambda i: 2 * z(i) / (g[i] * (1 + z(i) ** 2)))
+    _data_fixed(vc, "CauchyLikelihood", "gamma", mk)
+
+
+@contract("C05", "logistic_data_fixed_at_construction")
+def logistic_data_fixed(vc):
+    def mk(y, s, F):
+        sc = lambda i: s[i] * vc.sqrt(3) / vc.pi
+        z = lambda i: (y[i] - F[i]) / sc(i)
+        return (lambda i: z(i) - 2 * vc.log1pexp(z(i)) - vc.log(sc(i)), lambda i: (2 / (1 + vc.exp(-z(i))) - 1) / sc(i))
+    _data_fixed(vc, "LogisticLikelihood", "sigma", mk)
+
+
 # ---- bounded layer: many data points, small / large uncertainties (products and sums that leave double range) ----------
 from pyvc.vc import bounded
 
@@ -142,6 +186,16 @@ def _one_scale(vc, rng, which, n, log_scale):
     with np.errstate(all="ignore"):
         L = cls(y, s, model, forward_model_jacobian=jac)
         val, cost, grad = L(theta), L.cost(theta), L.gradient(theta)
+    # the object is the likelihood of the data it was GIVEN: the caller re-filling its own buffers afterwards (the next data
+    # set read into the same arrays) does not change it
+    y_given, s_given = y.copy(), s.copy()
+    with np.errstate(all="ignore"):
+        L2 = cls(y, s, model, forward_model_jacobian=jac)
+        y += 3.0 * s
+        s *= 2.0
+        val2, grad2 = L2(theta), L2.gradient(theta)
+    y, s = y_given, s_given
+    vc.ensures("data_are_those_given_at_construction", float(val2) == float(val) and bool(np.array_equal(grad2, grad)))
     r = y - model(theta)
     if which == "gaussian":
         terms = [-0.5 * (ri / si) ** 2 - math.log(si) - 0.5 * math.log(2 * math.pi) for ri, si in zip(r, s)]
